@@ -513,8 +513,43 @@ def rewrite(toks, frm, to, counts, mode="once"):
     return out
 
 
+def n12_const(toks, counts):
+    """N12: `const NAME: &[T] = EXPR;` -> `exec const NAME: &'static [T] { EXPR }` (Verus needs the exec-const
+    form to attach an `ensures` to a constant whose value is an array literal; the lifetime of a const is 'static)."""
+    if not (toks and is_id(toks[0], "const")):
+        return toks
+    out = []
+    depth = 0
+    seen_eq = False
+    mk = lambda kind, text, like: Tok(kind, text, " ", like.line, "norm")
+    for i, t in enumerate(toks):
+        if i == 0:
+            out.append(mk("id", "exec", t))
+            out.append(t)
+            continue
+        if not seen_eq and is_p(t, "&") and not (i + 1 < len(toks) and toks[i + 1].kind == "life"):
+            out.append(t)
+            out.append(mk("life", "'static", t))
+            continue
+        if not seen_eq and depth == 0 and is_p(t, "="):
+            out.append(mk("punct", "{", t))
+            seen_eq = True
+            continue
+        if seen_eq and i == len(toks) - 1 and is_p(t, ";"):
+            out.append(mk("punct", "}", t))
+            continue
+        if t.kind == "punct" and t.text in "([{":
+            depth += 1
+        elif t.kind == "punct" and t.text in ")]}":
+            depth -= 1
+        out.append(t)
+    counts["N12"] = 1
+    return out
+
+
 def apply_all(toks, repo, opts, notes):
     counts = {}
+    toks = n12_const(list(toks), counts)
     toks = drop_attrs(list(toks), repo.features | set(opts.get("features", [])), counts)
     toks = expand_inner(toks, repo, set(opts.get("expand", [])), opts.get("macro_files", []), counts, notes)
     # attributes inside macro bodies
